@@ -547,11 +547,17 @@ func c09Resolver(c *core.Ctx, o *so.Oracle, sp *saml.ServiceProvider, corpus [][
 	}
 	behs := []beh{
 		{"good", func(id string, _ *http.Request, _ []byte) (*http.Response, error) { return so.OK200(good(id)) }},
-		{"dial-error", func(string, *http.Request, []byte) (*http.Response, error) { return nil, errors.New("dial tcp: connection refused") }},
+		{"dial-error", func(string, *http.Request, []byte) (*http.Response, error) {
+			return nil, errors.New("dial tcp: connection refused")
+		}},
 		{"context-canceled", func(string, *http.Request, []byte) (*http.Response, error) { return nil, context.Canceled }},
 		{"empty-200", func(string, *http.Request, []byte) (*http.Response, error) { return so.OK200(nil) }},
-		{"garbage-200", func(string, *http.Request, []byte) (*http.Response, error) { return so.OK200([]byte("\x00\x01garbage<<<")) }},
-		{"html-200", func(string, *http.Request, []byte) (*http.Response, error) { return so.OK200([]byte("<html><body>error</body></html>")) }},
+		{"garbage-200", func(string, *http.Request, []byte) (*http.Response, error) {
+			return so.OK200([]byte("\x00\x01garbage<<<"))
+		}},
+		{"html-200", func(string, *http.Request, []byte) (*http.Response, error) {
+			return so.OK200([]byte("<html><body>error</body></html>"))
+		}},
 		{"truncated", func(id string, _ *http.Request, _ []byte) (*http.Response, error) {
 			g := good(id)
 			return so.OK200(g[:len(g)/2])
@@ -1008,7 +1014,9 @@ func c09HostileMetadata(c *core.Ctx, base *saml.EntityDescriptor) []hostileMD {
 		m.SPSSODescriptors[0].KeyDescriptors = []saml.KeyDescriptor{{Use: "encryption", KeyInfo: saml.KeyInfo{X509Data: saml.X509Data{X509Certificates: []saml.X509Certificate{{Data: fx.K("sp_p256").CertB64()}}}}}}
 	})
 	add("unlabelled-descriptor-without-certificate", func(m *saml.EntityDescriptor) { m.SPSSODescriptors[0].KeyDescriptors = []saml.KeyDescriptor{{Use: ""}} })
-	add("signing-descriptor-without-certificate", func(m *saml.EntityDescriptor) { m.SPSSODescriptors[0].KeyDescriptors = []saml.KeyDescriptor{{Use: "signing"}} })
+	add("signing-descriptor-without-certificate", func(m *saml.EntityDescriptor) {
+		m.SPSSODescriptors[0].KeyDescriptors = []saml.KeyDescriptor{{Use: "signing"}}
+	})
 	add("attribute-consuming-services", func(m *saml.EntityDescriptor) {
 		t := true
 		m.SPSSODescriptors[0].AttributeConsumingServices = []saml.AttributeConsumingService{{IsDefault: &t, RequestedAttributes: []saml.RequestedAttribute{
@@ -1095,12 +1103,16 @@ func c09Meta(c *core.Ctx, mine func() bool) {
 	behs := []beh{
 		{"good", func(*http.Request) (*http.Response, error) { return so.OK200(idpmd) }},
 		{"dial-error", func(*http.Request) (*http.Response, error) { return nil, errors.New("dial error") }},
-		{"404", func(*http.Request) (*http.Response, error) { return so.HTTPResponse(404, strings.NewReader("nope")), nil }},
+		{"404", func(*http.Request) (*http.Response, error) {
+			return so.HTTPResponse(404, strings.NewReader("nope")), nil
+		}},
 		{"500-with-metadata", func(*http.Request) (*http.Response, error) { return so.HTTPResponse(500, bytes.NewReader(idpmd)), nil }},
 		{"302", func(*http.Request) (*http.Response, error) { return so.HTTPResponse(302, strings.NewReader("")), nil }},
 		{"empty", func(*http.Request) (*http.Response, error) { return so.OK200(nil) }},
 		{"truncated", func(*http.Request) (*http.Response, error) { return so.OK200(idpmd[:len(idpmd)/2]) }},
-		{"read-error", func(*http.Request) (*http.Response, error) { return so.HTTPResponse(200, &so.ErrReader{Data: idpmd, N: 100}), nil }},
+		{"read-error", func(*http.Request) (*http.Response, error) {
+			return so.HTTPResponse(200, &so.ErrReader{Data: idpmd, N: 100}), nil
+		}},
 		{"garbage", func(*http.Request) (*http.Response, error) { return so.OK200([]byte("\x00\xff{}")) }},
 		{"entities-without-idp", func(*http.Request) (*http.Response, error) {
 			return so.OK200(append(append([]byte(`<EntitiesDescriptor xmlns="urn:oasis:names:tc:SAML:2.0:metadata">`), spmd...), []byte(`</EntitiesDescriptor>`)...))
